@@ -197,7 +197,8 @@ class C10(Check):
               'pools': [['a', BIG]], 'kinds': ['noop', 'take']}
         jobs += split_first('rmwait', f'RMWAIT-C10new[D{D}]', p4, e2=50, max_states=3000000, max_seconds=3000)
         p5 = {'depth': D, 'adds': [['a', 0.25], ['a', -0.25]], 'requests': [{'a': 0.25}, {'a': 0.5}, {'a': 0.75}],
-              'pools': [['a', 1]], 'kinds': ['noop', 'method']}
+              'pools': [['a', 1]], 'kinds': ['noop', 'method'],
+              'late_release': True}     # ... and releases made from an event on the very last instant of a run
         jobs += split_first('rmwait', f'RMWAIT-C10frac[D{D}]', p5, e2=50, max_states=3000000, max_seconds=3000)
         return jobs
 
